@@ -386,8 +386,11 @@ class Check:
             "wall_s": round(wall, 2),
             "violations": len(self.violations),
         }
-        os.makedirs(os.path.join(VERIF, "evidence"), exist_ok=True)
-        with open(os.path.join(VERIF, "evidence", f"{self.prop}.json"), "w") as fh:
+        # runs against a scratch copy of the sources (mutants, seeded changes) must not overwrite the evidence
+        # of the real tree
+        evdir = os.environ.get("VERIF_EVIDENCE_DIR") or os.path.join(VERIF, "evidence")
+        os.makedirs(evdir, exist_ok=True)
+        with open(os.path.join(evdir, f"{self.prop}.json"), "w") as fh:
             json.dump(ev, fh, indent=1, sort_keys=True, default=str)
         for line in self.known_lines:
             print(line)
